@@ -299,11 +299,21 @@ where
     SC: Cache<Result<Arc<[u8]>, Arc<PdfError>>>,
     L: Log
 {
-    fn resolve_flags(&self, r: PlainRef, flags: ParseFlags, _depth: usize) -> Result<Primitive> {
+    fn resolve_flags(&self, r: PlainRef, flags: ParseFlags, depth: usize) -> Result<Primitive> {
         let storage = self.storage;
         storage.log.load_object(r);
 
-        storage.resolve_ref(r, flags, self)
+        match storage.resolve_ref(r, flags, self)? {
+            // the object is itself only a reference. callers follow references by calling resolve again,
+            // so a cycle of such objects would recurse forever: follow the chain here, at most `depth` links
+            Primitive::Reference(next) => {
+                if depth == 0 {
+                    bail!("reference chain starting at {:?} is too long", r);
+                }
+                self.resolve_flags(next, flags, depth - 1)
+            }
+            p => Ok(p)
+        }
     }
 
     fn get<T: Object+DataSize>(&self, r: Ref<T>) -> Result<RcRef<T>> {
